@@ -61,6 +61,12 @@ pub enum BufOp {
     /// `extend` from an iterator that panics after yielding `after` bytes: the bytes stored before the
     /// panic are part of what the view wrote when it is released during unwinding
     ExtendPanics { len: u16, after: u16, salt: u32 },
+    /// top level: `reader.read_buffer(container)` directly on the container (no view held by the caller);
+    /// the returned slice is used after the library released its intermediate
+    TopRead { avail: u16, fault: u8, salt: u32 },
+    /// a reader that breaks the `Read` contract: it reports `extra` more bytes than the space it was given.
+    /// The library refuses with a panic; the view released during that unwinding must not commit the bogus count
+    ReadLies { avail: u16, extra: u16, salt: u32 },
 }
 
 fn v(class: &str, keys: &[(&str, &str)], obs: String) -> Violation {
@@ -70,7 +76,7 @@ fn v(class: &str, keys: &[(&str, &str)], obs: String) -> Violation {
 /// A reader under simulation: never looks at the buffer it is given.
 struct SimReader {
     data: Vec<u8>,
-    fault: u8,
+    fault: u16,
     rng: Prng,
 }
 impl io::Read for SimReader {
@@ -80,6 +86,12 @@ impl io::Read for SimReader {
             4 => return Err(io::Error::new(io::ErrorKind::Other, "simulated I/O error")),
             2 => return Ok(0),
             _ => {}
+        }
+        if self.fault >= 100 {
+            // contract violation: claims more than the space it was given
+            let n = buf.len().min(self.data.len());
+            buf[..n].copy_from_slice(&self.data[..n]);
+            return Ok(buf.len() + (self.fault as usize - 99));
         }
         let mut n = buf.len().min(self.data.len());
         if self.fault == 1 && n > 1 {
@@ -142,6 +154,8 @@ struct Run<'a> {
     trace: u64,
     pending_readref: Option<(u16, u8, u32)>,
     split: bool,
+    /// a contract-breaking reader is being served: the library's refusal (a panic in the buffer crate) is expected
+    lying: bool,
 }
 
 const UNWIND_MARKER: &str = "TW2SIM-UNWIND simulated crash inside the closure";
@@ -159,14 +173,49 @@ struct Stats {
     direct_reads: u64,
     splits: u64,
     unwinds: u64,
+    top_reads: u64,
+    lies: u64,
 }
 
 impl<'a> Run<'a> {
     /// Runs ops inside one view until `limit` ops are consumed, Reopen/exit. `model` = bytes this view has initialized.
     fn in_view(&mut self, b: &mut BufferRef, capacity: usize, model: &mut Vec<u8>, mut limit: usize, depth: u32) {
         while self.pos < self.ops.len() && limit > 0 && self.viol.is_none() && !self.exit {
-            let op = self.ops[self.pos].clone();
+            let op = match self.ops[self.pos].clone() {
+                // a top-level read is an op of the container loop; inside a nested view or on a slice store it is an ordinary read
+                BufOp::TopRead { avail, fault, salt } if depth > 0 || self.cfg.store >= 4 => BufOp::Read { avail, fault, salt },
+                o => o,
+            };
             match op {
+                BufOp::TopRead { .. } => return,
+                BufOp::ReadLies { avail, extra, salt } => {
+                    self.pos += 1;
+                    if depth > 0 {
+                        continue;
+                    }
+                    let data = bytes(self.cfg.seed, salt, avail as usize);
+                    let mut rd = SimReader { data, fault: 100 + (extra % 400), rng: Prng::new(1) };
+                    self.exit = true;
+                    self.lying = true;
+                    self.stats.lies += 1;
+                    let r = rd.read_buffer(&mut *b).map(|s| s.len());
+                    // not refused: the one thing that must still hold is the capacity
+                    self.lying = false;
+                    let now = capacity.saturating_sub(b.remaining());
+                    if b.remaining() > capacity || now > capacity || r.as_ref().map(|n| *n > capacity - model.len()).unwrap_or(false) {
+                        self.viol = Some(v("over-reported-read-accepted", &[], format!("a reader reported more bytes than the {} it was given; read_buffer returned {:?} and the view now counts {} of {}", capacity - model.len(), r.ok(), now, capacity)));
+                        return;
+                    }
+                    // accepted within the capacity (clamped): the bytes the view now holds beyond the model are whatever the library decided
+                    let extra_bytes = now.saturating_sub(model.len());
+                    model.extend(std::iter::repeat(0).take(extra_bytes));
+                    self.viol = None;
+                    self.pending_readref = None;
+                    // the model cannot follow a clamped over-report: end the run here, quietly
+                    self.pos = self.ops.len();
+                    self.lying = true; // tells the container loop to skip the content comparison of this view
+                    return;
+                }
                 BufOp::Reopen | BufOp::DropUnused if depth > 0 => {
                     // only meaningful at top level: ends the nested view
                     return;
@@ -237,7 +286,7 @@ impl<'a> Run<'a> {
             self.pos += 1;
             limit -= 1;
             let remaining_before = capacity - model.len();
-            self.trace = mix(self.trace, remaining_before as u64 * 16 + depth as u64, match &op { BufOp::Write { len, .. } => 100 + *len as u64, BufOp::Extend { len, .. } => 10_000 + *len as u64, BufOp::Read { avail, fault, .. } => 100_000 + (*avail as u64) * 8 + *fault as u64, BufOp::Nested { n, cap_at, cap_at2 } => 1_000_000 + (*n as u64) * 70_000 + cap_at.map(|c| c as u64 + 1).unwrap_or(0) + cap_at2.map(|c| (c as u64 + 1) * 7).unwrap_or(0), BufOp::ExtendLoose { len, .. } => 5_000_000 + *len as u64, BufOp::NestedDropUnused { cap_at } => 6_000_000 + cap_at.map(|c| c as u64 + 1).unwrap_or(0), BufOp::FailAndExit { .. } => 3, _ => 4 });
+            self.trace = mix(self.trace, remaining_before as u64 * 16 + depth as u64, match &op { BufOp::Write { len, .. } => 100 + *len as u64, BufOp::Extend { len, .. } => 10_000 + *len as u64, BufOp::Read { avail, fault, .. } => 100_000 + (*avail as u64) * 8 + *fault as u64, BufOp::TopRead { avail, fault, .. } => 7_000_000 + (*avail as u64) * 8 + *fault as u64, BufOp::Nested { n, cap_at, cap_at2 } => 1_000_000 + (*n as u64) * 70_000 + cap_at.map(|c| c as u64 + 1).unwrap_or(0) + cap_at2.map(|c| (c as u64 + 1) * 7).unwrap_or(0), BufOp::ExtendLoose { len, .. } => 5_000_000 + *len as u64, BufOp::NestedDropUnused { cap_at } => 6_000_000 + cap_at.map(|c| c as u64 + 1).unwrap_or(0), BufOp::FailAndExit { .. } => 3, _ => 4 });
             if b.remaining() != remaining_before {
                 self.viol = Some(v("remaining-wrong", &[], format!("remaining() = {} but capacity {} - {} written = {}", b.remaining(), capacity, model.len(), remaining_before)));
                 return;
@@ -310,7 +359,7 @@ impl<'a> Run<'a> {
                 BufOp::Read { avail, fault, salt } => {
                     let data = bytes(self.cfg.seed, salt, avail as usize);
                     let fault = fault % 7;
-                    let mut rd = SimReader { data: data.clone(), fault, rng: Prng::new(mix(self.cfg.seed, salt as u64, 7)) };
+                    let mut rd = SimReader { data: data.clone(), fault: fault as u16, rng: Prng::new(mix(self.cfg.seed, salt as u64, 7)) };
                     let r = rd.read_buffer(&mut *b).map(|s| s.to_vec());
                     let now = capacity.saturating_sub(b.remaining());
                     self.stats.read_faults[fault as usize] += 1;
@@ -441,7 +490,7 @@ impl<'a> Run<'a> {
                         return;
                     }
                 }
-                BufOp::Reopen | BufOp::DropUnused | BufOp::SplitView | BufOp::ReadRef { .. } | BufOp::PanicExit | BufOp::ExtendPanics { .. } => unreachable!(),
+                BufOp::Reopen | BufOp::DropUnused | BufOp::SplitView | BufOp::ReadRef { .. } | BufOp::PanicExit | BufOp::ExtendPanics { .. } | BufOp::TopRead { .. } | BufOp::ReadLies { .. } => unreachable!(),
             }
         }
     }
@@ -465,7 +514,7 @@ impl<'a> Run<'a> {
                 }
                 let data = bytes(self.cfg.seed, salt, avail as usize);
                 let fault = fault % 5;
-                let mut rd = SimReader { data: data.clone(), fault, rng: Prng::new(mix(self.cfg.seed, salt as u64, 7)) };
+                let mut rd = SimReader { data: data.clone(), fault: fault as u16, rng: Prng::new(mix(self.cfg.seed, salt as u64, 7)) };
                 self.stats.read_faults[fault as usize] += 1;
                 self.stats.by_value_reads += 1;
                 let r = rd.read_buffer_ref(b).map(|s| s.to_vec());
@@ -517,12 +566,86 @@ impl BufEngine {
         let cap = cfg.capacity as usize;
         let pre: Vec<u8> = (0..cfg.pre_len as usize).map(|i| 0xA0 | (i as u8 & 0xf)).collect();
         macro_rules! drive {
-            ($container:expr, $mk:expr, $remaining:expr, $content:expr) => {{
+            ($container:expr, $mk:expr, $remaining:expr, $content:expr, $storage:expr) => {{
                 // $mk: how to obtain a `Buffer` from the container; loops over views (Reopen / DropUnused)
                 let mut expected: Vec<u8> = $content(&$container);
+                // (address, capacity) of the container's storage: the abstraction never reallocates or grows it
+                let storage0: (usize, usize) = $storage(&$container);
                 loop {
                     if run.viol.is_some() {
                         break;
+                    }
+                    if $storage(&$container) != storage0 {
+                        let now: (usize, usize) = $storage(&$container);
+                        run.viol = Some(v("container-storage-changed", &[("store", &cfg.store.to_string())], format!("the container's storage was {} bytes at {:#x} and is now {} bytes at {:#x}: a view went past the capacity it was given (or slices handed out earlier now dangle)", storage0.1, storage0.0, now.1, now.0)));
+                        break;
+                    }
+                    if let Some(BufOp::TopRead { avail, fault, salt }) = run.ops.get(run.pos).cloned() {
+                        run.pos += 1;
+                        let remaining: usize = $remaining(&$container);
+                        let cap2 = if cfg.cap_at.is_some() { cfg.cap_at2 } else { None };
+                        let view_cap = match cfg.cap_at {
+                            Some(c) => (c as usize).min(remaining).min(cap2.map(|c| c as usize).unwrap_or(usize::MAX)),
+                            None => remaining,
+                        };
+                        let data = bytes(cfg.seed, salt, avail as usize);
+                        let fault = fault % 5;
+                        let mut rd = SimReader { data: data.clone(), fault: fault as u16, rng: Prng::new(mix(cfg.seed, salt as u64, 7)) };
+                        run.stats.read_faults[fault as usize] += 1;
+                        run.stats.top_reads += 1;
+                        let r: Result<io::Result<&[u8]>, PanicInfo> = guard(|| match cfg.cap_at {
+                            Some(c) if cap2.is_some() => rd.read_buffer($mk(&mut $container).cap_at(c as usize).cap_at(cap2.unwrap() as usize)),
+                            Some(c) => rd.read_buffer($mk(&mut $container).cap_at(c as usize)),
+                            None => rd.read_buffer($mk(&mut $container)),
+                        });
+                        let r = match r {
+                            Ok(r) => r,
+                            Err(p) => {
+                                run.viol = Some(v("panic", &[("message", &p.msg_class()), ("file", &p.file_class())], format!("read_buffer on the container panicked: {} at {}:{}", p.msg, p.file, p.line)));
+                                break;
+                            }
+                        };
+                        // the intermediate is gone; the slice handed out is still the caller's to use
+                        let storage_now: (usize, usize) = $storage(&$container);
+                        match r {
+                            Ok(got) => {
+                                if fault >= 3 {
+                                    run.viol = Some(v("read-error-swallowed", &[("call", "top-read")], "a failing reader produced Ok".into()));
+                                    break;
+                                }
+                                let (gp, gl) = (got.as_ptr() as usize, got.len());
+                                if gl > view_cap || gl > data.len() || (fault == 2 && gl != 0) {
+                                    run.viol = Some(v("read-result-wrong", &[("call", "top-read"), ("fault", &fault.to_string())], format!("read_buffer on the container returned {} bytes ({} remaining, reader had {})", gl, view_cap, data.len())));
+                                    break;
+                                }
+                                if gl > 0 && !(gp >= storage_now.0 && gp + gl <= storage_now.0 + storage_now.1) {
+                                    run.viol = Some(v("returned-slice-outside-container", &[("store", &cfg.store.to_string())], format!("the {} bytes returned by read_buffer lie at {:#x}, outside the container's storage ({} bytes at {:#x}) once the view is released", gl, gp, storage_now.1, storage_now.0)));
+                                    break;
+                                }
+                                if got[..] != data[..gl] {
+                                    run.viol = Some(v("read-result-wrong", &[("call", "top-read"), ("fault", &fault.to_string())], "the slice returned by read_buffer does not hold the bytes read once the view is released".into()));
+                                    break;
+                                }
+                                expected.extend_from_slice(&data[..gl]);
+                                run.stats.reads_ok += 1;
+                            }
+                            Err(_) => {
+                                if fault < 3 {
+                                    run.viol = Some(v("read-result-wrong", &[("call", "top-read"), ("fault", "spurious-error")], "read_buffer failed although the reader did not".into()));
+                                    break;
+                                }
+                            }
+                        }
+                        let after: Vec<u8> = $content(&$container);
+                        if after != expected {
+                            run.viol = Some(v("container-after-release-wrong", &[("store", &cfg.store.to_string()), ("what", if after.len() != expected.len() { "length" } else { "contents" }), ("call", "top-read")], format!("after read_buffer on the container it holds {} bytes, expected {}", after.len(), expected.len())));
+                            break;
+                        }
+                        ctx.oracle_event = true;
+                        if run.pos >= run.ops.len() {
+                            break;
+                        }
+                        continue;
                     }
                     if run.pos < run.ops.len() && run.ops[run.pos] == BufOp::DropUnused {
                         run.pos += 1;
@@ -576,14 +699,29 @@ impl BufEngine {
                         Some(c) => one_view!($mk(&mut $container).cap_at(c as usize)),
                         None => one_view!($mk(&mut $container)),
                     });
-                    if let Err(p) = unwound {
-                        if p.msg != UNWIND_MARKER {
-                            run.viol = Some(v("panic", &[("message", &p.msg_class()), ("file", &p.file_class())], format!("the buffer library panicked: {} at {}:{} (store {}, capacity {}, pre-existing {}, cap_at {:?})", p.msg, p.file, p.line, cfg.store, cfg.capacity, cfg.pre_len, cfg.cap_at)));
+                    let mut clamped_lie = false;
+                    match unwound {
+                        Err(p) => {
+                            // the refusal of a contract-breaking reader is a panic raised by the buffer crate itself
+                            let refused_lie = run.lying && p.file.ends_with("buffer/src/lib.rs");
+                            if p.msg != UNWIND_MARKER && !refused_lie {
+                                run.viol = Some(v("panic", &[("message", &p.msg_class()), ("file", &p.file_class())], format!("the buffer library panicked: {} at {}:{} (store {}, capacity {}, pre-existing {}, cap_at {:?})", p.msg, p.file, p.line, cfg.store, cfg.capacity, cfg.pre_len, cfg.cap_at)));
+                            }
+                            run.split = false;
+                            run.pending_readref = None;
                         }
-                        run.split = false;
-                        run.pending_readref = None;
+                        Ok(_) => clamped_lie = run.lying,
                     }
+                    run.lying = false;
                     if run.viol.is_some() {
+                        break;
+                    }
+                    if clamped_lie {
+                        // the over-report was accepted within the capacity: only the capacity is checked
+                        let after: Vec<u8> = $content(&$container);
+                        if after.len() > storage0.1 {
+                            run.viol = Some(v("container-after-release-wrong", &[("store", &cfg.store.to_string()), ("what", "length-beyond-capacity")], format!("the container reports {} bytes in {} bytes of storage", after.len(), storage0.1)));
+                        }
                         break;
                     }
                     expected.extend_from_slice(&model);
@@ -604,22 +742,22 @@ impl BufEngine {
             0 => {
                 let mut vec: Vec<u8> = Vec::with_capacity(cap.max(pre.len()));
                 vec.extend_from_slice(&pre);
-                drive!(vec, |c: &mut Vec<u8>| unsafe { &mut *(c as *mut Vec<u8>) }, |c: &Vec<u8>| c.capacity() - c.len(), |c: &Vec<u8>| c.clone());
+                drive!(vec, |c: &mut Vec<u8>| unsafe { &mut *(c as *mut Vec<u8>) }, |c: &Vec<u8>| c.capacity() - c.len(), |c: &Vec<u8>| c.clone(), |c: &Vec<u8>| (c.as_ptr() as usize, c.capacity()));
             }
             1 => {
                 let mut a: ArrayVec<[u8; 16]> = ArrayVec::new();
                 a.extend(pre.iter().cloned().take(16));
-                drive!(a, |c: &mut ArrayVec<[u8; 16]>| unsafe { &mut *(c as *mut ArrayVec<[u8; 16]>) }, |c: &ArrayVec<[u8; 16]>| c.capacity() - c.len(), |c: &ArrayVec<[u8; 16]>| c.to_vec());
+                drive!(a, |c: &mut ArrayVec<[u8; 16]>| unsafe { &mut *(c as *mut ArrayVec<[u8; 16]>) }, |c: &ArrayVec<[u8; 16]>| c.capacity() - c.len(), |c: &ArrayVec<[u8; 16]>| c.to_vec(), |c: &ArrayVec<[u8; 16]>| (c.as_ptr() as usize, c.capacity()));
             }
             2 => {
                 let mut a: ArrayVec<[u8; 64]> = ArrayVec::new();
                 a.extend(pre.iter().cloned().take(64));
-                drive!(a, |c: &mut ArrayVec<[u8; 64]>| unsafe { &mut *(c as *mut ArrayVec<[u8; 64]>) }, |c: &ArrayVec<[u8; 64]>| c.capacity() - c.len(), |c: &ArrayVec<[u8; 64]>| c.to_vec());
+                drive!(a, |c: &mut ArrayVec<[u8; 64]>| unsafe { &mut *(c as *mut ArrayVec<[u8; 64]>) }, |c: &ArrayVec<[u8; 64]>| c.capacity() - c.len(), |c: &ArrayVec<[u8; 64]>| c.to_vec(), |c: &ArrayVec<[u8; 64]>| (c.as_ptr() as usize, c.capacity()));
             }
             3 => {
                 let mut a: ArrayVec<[u8; 2048]> = ArrayVec::new();
                 a.extend(pre.iter().cloned().take(2048));
-                drive!(a, |c: &mut ArrayVec<[u8; 2048]>| unsafe { &mut *(c as *mut ArrayVec<[u8; 2048]>) }, |c: &ArrayVec<[u8; 2048]>| c.capacity() - c.len(), |c: &ArrayVec<[u8; 2048]>| c.to_vec());
+                drive!(a, |c: &mut ArrayVec<[u8; 2048]>| unsafe { &mut *(c as *mut ArrayVec<[u8; 2048]>) }, |c: &ArrayVec<[u8; 2048]>| c.capacity() - c.len(), |c: &ArrayVec<[u8; 2048]>| c.to_vec(), |c: &ArrayVec<[u8; 2048]>| (c.as_ptr() as usize, c.capacity()));
             }
             _ => {
                 // plain slice and slice reference: one view only (a slice has no length to grow; the
@@ -660,11 +798,19 @@ impl BufEngine {
                         Some(c) => one_view!(sl.cap_at(c as usize)),
                         None => one_view!(sl),
                     });
-                    if let Err(p) = unwound {
-                        if p.msg != UNWIND_MARKER {
-                            run.viol = Some(v("panic", &[("message", &p.msg_class()), ("file", &p.file_class())], format!("the buffer library panicked: {} at {}:{} (store 4)", p.msg, p.file, p.line)));
+                    let mut skip_content = false;
+                    match unwound {
+                        Err(p) => {
+                            if p.msg != UNWIND_MARKER && !(run.lying && p.file.ends_with("buffer/src/lib.rs")) {
+                                run.viol = Some(v("panic", &[("message", &p.msg_class()), ("file", &p.file_class())], format!("the buffer library panicked: {} at {}:{} (store 4)", p.msg, p.file, p.line)));
+                            }
+                            run.pending_readref = None;
                         }
-                        run.pending_readref = None;
+                        Ok(_) => skip_content = run.lying,
+                    }
+                    run.lying = false;
+                    if skip_content {
+                        model.clear();
                     }
                     if run.viol.is_none() && backing[..model.len()] != model[..] {
                         run.viol = Some(v("container-after-release-wrong", &[("store", "4"), ("what", "contents")], "the slice does not hold the written bytes at its start".into()));
@@ -686,15 +832,24 @@ impl BufEngine {
                                 run.finish_view(b, view_cap, &mut model);
                             }),
                         });
-                        if let Err(p) = unwound {
-                            if p.msg != UNWIND_MARKER {
-                                run.viol = Some(v("panic", &[("message", &p.msg_class()), ("file", &p.file_class())], format!("the buffer library panicked: {} at {}:{} (store 5)", p.msg, p.file, p.line)));
+                        match unwound {
+                            Err(p) => {
+                                if p.msg != UNWIND_MARKER && !(run.lying && p.file.ends_with("buffer/src/lib.rs")) {
+                                    run.viol = Some(v("panic", &[("message", &p.msg_class()), ("file", &p.file_class())], format!("the buffer library panicked: {} at {}:{} (store 5)", p.msg, p.file, p.line)));
+                                }
+                                run.pending_readref = None;
+                                run.lying = false;
                             }
-                            run.pending_readref = None;
+                            Ok(_) => {}
                         }
                     }
-                    let after: Vec<u8> = unsafe { (&*slp).to_vec() };
-                    if run.viol.is_none() && after != model {
+                    let span: usize = unsafe { (&*slp).len() };
+                    if run.viol.is_none() && span > cap {
+                        run.viol = Some(v("container-after-release-wrong", &[("store", "5"), ("what", "length-beyond-capacity")], format!("after release the slice reference spans {} bytes of a {}-byte slice", span, cap)));
+                    }
+                    let after: Vec<u8> = if run.viol.is_none() { unsafe { (&*slp).to_vec() } } else { Vec::new() };
+                    let clamped = std::mem::replace(&mut run.lying, false);
+                    if run.viol.is_none() && !clamped && after != model {
                         run.viol = Some(v("container-after-release-wrong", &[("store", "5"), ("what", if after.len() != model.len() { "length" } else { "contents" })], format!("after release the slice reference spans {} bytes, {} were written", after.len(), model.len())));
                     }
                 }
@@ -765,7 +920,7 @@ impl Engine for BufEngine {
             }
         };
         for _ in 0..n {
-            match s.weighted(&[5, 4, 6, 3, 1, 2, 1, 3, 1, 2, if two_step { 3 } else { 0 }, 1]) {
+            match s.weighted(&[5, 4, 6, 3, 1, 2, 1, 3, 1, 2, if two_step { 3 } else { 0 }, 1, 3, 1]) {
                 0 => ops.push(BufOp::Write { len: lens(&mut s), salt: s.next_u64() as u32 }),
                 1 => ops.push(BufOp::Extend { len: lens(&mut s), salt: s.next_u64() as u32 }),
                 2 => ops.push(BufOp::Read { avail: lens(&mut s).saturating_add(s.below(5) as u16), fault: *s.pick(&[0u8, 0, 1, 1, 2, 3, 4, 5, 5, 6]), salt: s.next_u64() as u32 }),
@@ -779,6 +934,8 @@ impl Engine for BufEngine {
                 9 => ops.push(BufOp::ReadRef { avail: lens(&mut s).saturating_add(s.below(5) as u16), fault: *s.pick(&[0u8, 0, 1, 1, 2, 3, 4]), salt: s.next_u64() as u32 }),
                 10 => ops.push(BufOp::SplitView),
                 11 => ops.push(if s.chance(1, 2) { BufOp::PanicExit } else { BufOp::ExtendPanics { len: lens(&mut s).saturating_add(2), after: s.range(0, rem + 2) as u16, salt: s.next_u64() as u32 } }),
+                12 => ops.push(BufOp::TopRead { avail: lens(&mut s).saturating_add(s.below(5) as u16), fault: *s.pick(&[0u8, 0, 0, 1, 1, 2, 3, 4]), salt: s.next_u64() as u32 }),
+                13 => ops.push(BufOp::ReadLies { avail: lens(&mut s), extra: *s.pick(&[0u16, 0, 1, 7, 300]), salt: s.next_u64() as u32 }),
                 4 => ops.push(BufOp::FailAndExit { len: s.range(0, 10) as u16 }),
                 5 => ops.push(BufOp::Reopen),
                 _ => ops.push(BufOp::DropUnused),
@@ -789,7 +946,7 @@ impl Engine for BufEngine {
 
     fn execute(&self, case: &Case<BufCfg, BufOp>, ctx: &mut Ctx) -> Option<Violation> {
         ctx.ops_executed += case.ops.len() as u64;
-        let mut run = Run { cfg: &case.cfg, ops: &case.ops, pos: 0, stats: Stats::default(), viol: None, exit: false, trace: 0, pending_readref: None, split: false };
+        let mut run = Run { cfg: &case.cfg, ops: &case.ops, pos: 0, stats: Stats::default(), viol: None, exit: false, trace: 0, pending_readref: None, split: false, lying: false };
         let r = guard(|| {
             BufEngine::run_store(&mut run, ctx);
         });
@@ -807,6 +964,8 @@ impl Engine for BufEngine {
         ctx.count_n("probe_split_views", run.stats.splits);
         ctx.count_n("probe_direct_reader_reads", run.stats.direct_reads);
         ctx.count_n("fault_unwind_in_closure", run.stats.unwinds);
+        ctx.count_n("probe_top_level_reads", run.stats.top_reads);
+        ctx.count_n("fault_reader_over_reports", run.stats.lies);
         if run.stats.read_faults[1..].iter().sum::<u64>() > 0 {
             ctx.fault_inflight = true;
         }
@@ -847,7 +1006,7 @@ impl Engine for BufEngine {
     }
     fn info(&self) -> EngineInfo {
         EngineInfo {
-            rule: "one run = one backing store (Vec, ArrayVec of 3 sizes, slice, slice reference; any capacity and pre-existing length; optionally capped) driven by a history of writes, iterator extends, reads from a reader with simulated faults (short read, zero-length read, EINTR, hard error), nested and capped sub-views, early exits after a refused write, a crash (panic) inside the closure that releases the view during unwinding, by-value reads into a view that already holds bytes, re-opened views, the two-step API with several BufferRefs taken from one intermediate, and unused intermediates; a Vec<u8> + capacity is the reference. Checked per op: remaining(), refusal instead of overrun, exact count; per view: initialized() equals the model; per release: container length = old length + bytes written and contents. Non-trivial = a reader fault fired AND a release was checked; distinct = distinct trace hash.".into(),
+            rule: "one run = one backing store (Vec, ArrayVec of 3 sizes, slice, slice reference; any capacity and pre-existing length; optionally capped) driven by a history of writes, iterator extends, reads from a reader with simulated faults (short read, zero-length read, EINTR, hard error), nested and capped sub-views, early exits after a refused write, a crash (panic) inside the closure that releases the view during unwinding, by-value reads into a view that already holds bytes, re-opened views, reads straight into the container whose returned slice is used after the library released its view, a reader that over-reports its byte count (refused by the library; the release during that unwinding must not commit the bogus count), the two-step API with several BufferRefs taken from one intermediate, and unused intermediates; a Vec<u8> + capacity is the reference. Checked per op: remaining(), refusal instead of overrun, exact count; per view: initialized() equals the model; per release: container length = old length + bytes written and contents, the container's storage (address, capacity) unchanged, slices handed out still inside it. Non-trivial = a reader fault fired AND a release was checked; distinct = distinct trace hash.".into(),
             assumptions: vec![
                 "the pure write/extend histories have no schedule or fault in them; they ride along as workload between faulty reads (honest limit)".into(),
                 "the slice-reference store is observed after release through a raw pointer (its borrow never ends in safe code)".into(),
@@ -855,8 +1014,8 @@ impl Engine for BufEngine {
             ],
             real: vec!["buffer::{with_buffer, BufferRef, Buffer impls for Vec / ArrayVec / slice / slice ref / BufferRef / CapAt}", "buffer::ReadBuffer"],
             stub: vec!["the reader (simulated, with faults)"],
-            required_probes: vec!["probe_writes_refused", "probe_reads_ok", "probe_nested_views", "probe_capped_views", "probe_early_exits", "probe_by_value_reads", "probe_split_views"],
-            fault_kinds: vec!["fault_short_read", "fault_zero_length_read", "fault_eintr_read", "fault_read_error", "fault_unwind_in_closure"],
+            required_probes: vec!["probe_writes_refused", "probe_reads_ok", "probe_nested_views", "probe_capped_views", "probe_early_exits", "probe_by_value_reads", "probe_split_views", "probe_top_level_reads"],
+            fault_kinds: vec!["fault_short_read", "fault_zero_length_read", "fault_eintr_read", "fault_read_error", "fault_unwind_in_closure", "fault_reader_over_reports"],
         }
     }
 }
